@@ -750,3 +750,19 @@ Example merge_pass_example :
 Proof.
   repeat split; try (apply ord_tree_b; vm_compute; reflexivity); apply HV.Topo.WF.nodup_N_spec; vm_compute; reflexivity.
 Qed.
+
+(* ---------- executable form of the hypotheses of keep_structure_children_ordered, evaluated by the C01 driver on
+   the tree observed right before every load-time merging pass ---------- *)
+From HV Require Import Topo.Remove.
+
+Definition merge_hypb (d4 : dump) : bool :=
+  match tree_of_dump d4 with
+  | Some t => nodup_N (nid t) && forallb kids_orderedb (nflatten t)
+  | None => false
+  end.
+
+Lemma merge_hypb_sound d4 t : tree_of_dump d4 = Some t -> merge_hypb d4 = true -> NoDup (nid t) /\ ord_tree t.
+Proof.
+  unfold merge_hypb. intros -> H. apply andb_true_iff in H as [H1 H2].
+  split; [now apply HV.Topo.WF.nodup_N_spec|now apply ord_tree_b].
+Qed.
